@@ -431,6 +431,30 @@ func (g *gen) stmt(ind, depth int) {
 	}
 	switch kind {
 	case 0, 1:
+		if len(g.fns) > 0 && g.chance(30) {
+			// bind the result of a helper call (often a @must_use one)
+			var cands []fnSig
+			for _, f := range g.fns {
+				if f.ret != nil && !f.ptr {
+					cands = append(cands, f)
+				}
+			}
+			if len(cands) > 0 {
+				f := cands[g.intn(0, len(cands)-1, "fn")]
+				var args []string
+				for _, p := range f.params {
+					args = append(args, g.expr(p, 1))
+				}
+				name := g.fresh("")
+				if g.chance(50) {
+					g.line(ind, "let %s = %s(%s);", name, f.name, strings.Join(args, ", "))
+				} else {
+					g.line(ind, "var %s: %s = %s(%s);", name, g.tyText(*f.ret), f.name, strings.Join(args, ", "))
+				}
+				g.declare(variable{name: name, t: *f.ret})
+				return
+			}
+		}
 		t := g.randTy(true)
 		name := g.fresh("")
 		e := g.expr(t, 2)
